@@ -1616,3 +1616,59 @@ def t_cpp_eval_expanded(facts, res, tier):
             res.fail("T-CPP-EVAL-EXPANDED", facts.where(fn, node), "process() evaluates a condition whose text is %s: an #elif reached in state Inactive sees its macros unexpanded" % (verdict or "not the result of replace_all (%s)" % "; ".join(steps[:4])))
     if n == 0:
         raise AnchorMissing("process(): no evaluate() call found")
+
+
+# ----------------------------------------------------------------------------- C01 / C18 (a subscript is part of the operand)
+
+
+@rule("T-SUBSCRIPT-USED", floor=6,
+      text="`Expr::Identifier(name, subscript)` is a variable with an optional subscript.  No arm of the generator binds the name and ignores the "
+           "subscript (`Expr::Identifier(name, _)`): it either binds the subscript too (and then uses it - tests it for `Expr::Nothing` or evaluates it), or "
+           "binds neither (the whole expression is passed on).  An arm that looks at the name alone treats `t[2]` as `t`: `strobe(REGS[2])` strobed REGS, "
+           "`sizeof(t[0])` was the size of t")
+def t_subscript_used(facts, res, tier):
+    n = 0
+    for fn in genmodel.gen_fns(facts):
+        for m in walk(fn["body"]):
+            pats = []
+            if m.get("k") == "match":
+                pats = [(a["pat"], a["body"]) for a in m["arms"]]
+            elif m.get("k") == "letcond":
+                pats = [(m["pat"], None)]
+            elif m.get("k") == "macro" and m.get("name") == "matches" and m.get("pat") is not None:
+                pats = [(m["pat"], None)]
+            for p, body in pats:
+                for q in ([p] + [x for x in walk_pat(p)]):
+                    if q.get("k") == "tstruct" and (q.get("segs") or ["?"])[-1] == "Identifier" and len(q.get("elems", [])) == 2:
+                        nm, sub = q["elems"]
+                        n += 1
+                        binds_name = nm.get("k") == "ident"
+                        ignores_sub = sub.get("k") == "wild"
+                        key = "T-SUBSCRIPT-USED:%s:%s" % (fn["name"], pat_text(q).replace(" ", ""))
+                        used = None
+                        if sub.get("k") == "ident" and body is not None:
+                            used = any(x.get("k") == "path" and x["segs"] == [sub["name"]] for x in walk(body))
+                        res.inst(key, True, {"function": fn["name"], "binds_name": binds_name, "subscript": "ignored" if ignores_sub else ("bound, used" if used else "bound" if used is None else "bound, NOT used")})
+                        if binds_name and ignores_sub:
+                            res.fail(key, facts.where(fn, m), "%s matches `%s`: the name is used and the subscript ignored, so `%s[i]` is treated as `%s`" % (fn["name"], pat_text(q), nm.get("name"), nm.get("name")))
+                        if used is False:
+                            res.fail(key, facts.where(fn, m), "%s binds the subscript of `%s` and never looks at it" % (fn["name"], pat_text(q)))
+    if n == 0:
+        raise AnchorMissing("no Expr::Identifier pattern found in the generator")
+
+
+def walk_pat(p):
+    if not isinstance(p, dict):
+        return
+    for k in ("elems", "alts", "fields"):
+        for x in p.get(k, []) or []:
+            y = x.get("pat") if k == "fields" and isinstance(x, dict) and "pat" in x else x
+            if isinstance(y, dict):
+                yield y
+                for z in walk_pat(y):
+                    yield z
+    for k in ("pat", "sub", "e"):
+        if isinstance(p.get(k), dict):
+            yield p[k]
+            for z in walk_pat(p[k]):
+                yield z
